@@ -149,6 +149,11 @@ class NetworkFamily:
         c.append(("interregional_betweenness(S,T)",
                   lambda: obj.interregional_betweenness(sources=[0, 1, 2], targets=[3, 4, 5])))
         c.append(("nsi_betweenness(S,T)", lambda: obj.nsi_betweenness(sources=[0, 1], targets=[2, 3, 4, 5])))
+        c.append(("distance_based_measures(replace_inf_by=N)",
+                  lambda: obj.distance_based_measures(replace_inf_by=obj.N)))
+        c.append(("hamming_distance_from(token 2)", lambda: obj.hamming_distance_from(
+            type(obj)(adjacency=ADJ[self.directed][2].copy(), directed=self.directed, silence_level=3))
+            if type(obj).__name__ in ("Network", "InteractingNetworks") and obj.N == len(ADJ[self.directed][2]) else 0.0))
         c.append(("local_cliquishness(4)", lambda: obj.local_cliquishness(4)))
         c.append(("higher_order_transitivity(4)", lambda: obj.higher_order_transitivity(4)))
         if a.get("LA"):
